@@ -46,10 +46,19 @@ def features(row):
     if "omit_" in t:
         # a one-step pipeline with a directional step is its own class: the translation must stay a pipeline
         f.append("one-step-pipeline-with-omit" if one else "omit")
-    if re.search(r" a=", hdr) and " rf=" in hdr:
+    body = t[len(hdr):] if pipe else " " + t
+    ga, gk = (" a=" in hdr or " rf=" in hdr), " k=" in hdr
+    la, lk = (" a=" in body or " rf=" in body), " k=" in body
+    if ga and la:
+        f.append("a-rf-at-pipeline-level-and-in-a-step")
+    elif ga and " a=" in hdr and " rf=" in hdr:
         f.append("global-a-rf")
-    elif re.search(r" k=", hdr):
+    if gk and lk:
+        f.append("k-at-pipeline-level-and-in-a-step")
+    elif gk:
         f.append("global-k")
+    if body.count(" k=") > 1 and (not pipe or any(st.count(" k=") > 1 for st in (" " + body).split(" step "))):
+        f.append("repeated-k")
     elif pipe and len(hdr.split()) > (2 if " inv " in (hdr + " ") else 1):
         f.append("globals")
     if row.get("why"):
@@ -112,7 +121,8 @@ def run(tier, seed):
                 "x pipeline-level inv x global argument sets that clash with step-local ones) and checks the reference "
                 "translation: inverted pipeline = exact inverse (plans and results), locals win, order kept, omissions keep "
                 "their meaning. A second family uses the operators both systems share (cart, helmert, utm, tmerc, merc, lcc, "
-                "laea, axisswap, unitconvert, noop; a+rf, k, global ellps) and refusals (init=, nested pipeline); these cases "
+                "laea, axisswap, unitconvert, noop, t_gamut; a+rf, k, global ellps; every combination of a/rf/k at pipeline level with "
+                "a/rf/k in the step, where the step's own must win) and refusals (init=, nested pipeline); these cases "
                 "are rendered in every layout with <=2 (quick) / <=3 (thorough) non-default choices over 8 dimensions ('+' "
                 "prefixes, blanks around '=', line per step, LF/CR/CRLF, comments, position of proj= and modifiers in a "
                 "step, order of the pipeline header, surrounding blanks). Each text is instantiated in a Plain context and "
@@ -125,6 +135,8 @@ def run(tier, seed):
         "ellps given together with a/rf (in the same step or through the globals) is not generated: the documentation of parse_proj leaves it to fail later",
         "a and rf reaching a step through the pipeline globals mean the same as given in the step (PROJ appends the globals to every step); likewise k",
         "comments whose text contains '|' are not generated (parse_proj documents that such a text 'does not look like a PROJ string' and passes it on unchanged)",
+        "k and k_0 given for the same step (directly or through the globals) is not generated: 'k is replaced by k_0 wherever it is encountered' would let the later one win, PROJ itself prefers k_0 whatever the order",
+        "the PROJ source keys a, rf, k are not compared in params().given / step texts (the translated ellps and k_0 are): whether overridden occurrences linger as ignored unknown keys is not specified",
         "which error is returned for init= / nested pipelines is not compared, only that op() and parse_proj() return an error",
     ]
     return res.finish()
